@@ -382,11 +382,22 @@ class C15(BattlePlan):
     tie_name = 'report streams: gmars Reporter callbacks vs the reports of extracted Exec.exec / Sim.run_cycle / spawn'
     rule = ('C01 single steps and C02 battles with a recording Reporter and a StateRecorder attached, core dumped after every cycle; the extracted report checker verifies: '
             'addresses < M and warrior indexes valid, every changed cell named by a write/increment/decrement report of that cycle, TaskPop sequence and terminate reports equal '
-            'the reference trace, reported changes within floor(W/2) of the PC, recorder state = last-touch fold of the stream; non-trivial = some cell changed')
+            'the reference trace, reported changes within floor(W/2) of the PC, recorder state = last-touch fold of the stream (with and without recorded reads), every address empty after Reset; non-trivial = some cell changed')
 
     def gens(self, tier):
         k = {'quick': 1, 'search': 1}.get(tier, 25)
-        return [('battle', 1500 * k, [1 | 2 | 8 | 16 | 32, 3, 1, 40]), ('stepr', 2 * k, [])]
+        return [('battle', 1000 * k, [1 | 2 | 8 | 16 | 32, 3, 1, 40]), ('battle', 300 * k, [1 | 2 | 8 | 16 | 32 | 256, 3, 1, 40]),
+                ('battle', 200 * k, [1 | 8 | 16 | 32 | 64, 3, 1, 40]), ('stepr', 2 * k, [])]
+
+    def extra_monitor(self, ints, impl):
+        # after Reset the recorder must show every address as empty (state 0, owner -1)
+        for r in impl:
+            if r and r[0] == 14:
+                cells = r[1:]
+                bad = [i // 2 for i in range(0, len(cells) - 1, 2) if (cells[i], cells[i + 1]) != (0, -1)]
+                if bad:
+                    return 'recorder-not-empty-after-reset: address %d' % bad[0]
+        return None
 
     def verdict_name(self, r):
         names = {30: 'report-address-or-warrior-index-invalid', 31: 'cell-changed-without-report', 32: 'task-reports-differ-from-reference-trace',
